@@ -8,7 +8,7 @@ META = {
     "level": "proof",
     "design_ref": "DESIGN.md §6 C07",
     "text": "Kernel-checked for every input and every pair of sub-routines: whatever the parser model returns is either Undefined — and then the cursor is forced to the end of input, so every enclosing container fails too — or a tree that contains no Undefined member anywhere, and a tree is returned only when nothing but whitespace follows the value (parse_all_or_nothing). On every run, for generated valid container documents D the real code is run on every proper prefix of D, on D followed by non-whitespace suffixes and on D with closing brackets swapped or removed; each must be Undefined; results are also compared with the model.",
-    "note": "Trusted: Lean kernel; axioms ⊆ {propext, Quot.sound, Classical.choice}; correspondence harness. 'Prefix of a valid document is rejected' is decided per generated document on the real code (validation), the theorem gives the structural half (no partial trees, whole input consumed).",
+    "note": "Trusted: Lean kernel; axioms ⊆ {propext, Quot.sound, Classical.choice}; correspondence harness. 'Every proper prefix of a valid array/object document is rejected' and 'a valid document followed by a non-whitespace unit is rejected' are theorems about the model (prefix_rejected, trailing_rejected: any nesting and layout; sub-routines through the reading contracts StrSpec/NumSpec and the truncation contracts StrTrunc/NumTrunc, all four discharged for the linked UnEscape / StringToNumber models on token-sequence strings and 64-bit decimal integers: prefix_rejected_concrete, trailing_rejected_concrete). Numerals with fraction/exponent keep NumSpec/NumTrunc as hypotheses. The same statements are decided per generated document on the real code on every run.",
 }
 
 THEOREMS = [
@@ -17,6 +17,18 @@ THEOREMS = [
     "Qentem.Props.C07.parse_all_or_nothing",
     "Qentem.Props.C07.failure_forces_end_of_input",
     "Qentem.Props.C07.accepted_is_complete",
+    "Qentem.Props.C07.trailing_rejected",
+    "Qentem.Props.C07.trailing_rejected_container",
+    "Qentem.Props.C07.prefix_rejected",
+    "Qentem.Props.C07.prefix_rejected_nontoken",
+    "Qentem.Props.C07.cut_value_ends_at_end",
+    "Qentem.Props.C07.trunc_natural",
+    "Qentem.Props.C07.trunc_negative",
+    "Qentem.Props.C07.trunc_zero",
+    "Qentem.Props.C07.trunc_string_body",
+    "Qentem.Props.C07.concrete_wf_ts",
+    "Qentem.Props.C07.prefix_rejected_concrete",
+    "Qentem.Props.C07.trailing_rejected_concrete",
 ]
 
 WITNESSES = ['[{"a":1,}]', '[{]]', '{"a":{"b":1,}}', '[{"a":1]]', '[[1}]', '[1,,2]', '{"a":1,}', '[1 2]', '{"a" 1}', '[tru]', '[nul]']
@@ -31,17 +43,33 @@ def run(ctx):
     items, origin = [], []
     for s in WITNESSES:
         items.append(("1", [ord(c) for c in s])); origin.append("witness " + s)
-    for d in _json.gen_docs(ctx, N, maxdepth=3):
+    docs = _json.gen_docs(ctx, N, maxdepth=3)
+    # strings whose body contains an escape followed by an escaped quote and then text that looks like
+    # the rest of a document: a reader that ends the string early accepts a proper prefix
+    for hs in (0xD83D, 0xD800, 0xDBFF, 0xDC00, 0x0041):
+        for up in (False, True):
+            for tail in (",1,2]", "}", "]", ':1}', ',"x":[]}'):
+                body = [("u", hs, up), ("esc", '"')] + [("raw", ord(ch)) for ch in tail]
+                docs.append(("arr", [("str", body), ("num", "7")]))
+                docs.append(("obj", [(body, ("arr", [("null",)]))]))
+    n_regular = len(docs) - 5 * 2 * 5 * 2
+    for di, d in enumerate(docs):
         w = rng.choice(_json.WIDTHS)
         u = jsongen.render(d, rng, _json.WNUM[w])
-        # D itself must be accepted (sanity of the generator), checked below through 'accept'
-        items.append((w, u)); origin.append("accept")
+        # D itself must be accepted (sanity of the generator), checked below through 'accept'; the constructed
+        # documents with a lone surrogate escape are not well-formed Unicode: the reader may reject them
+        items.append((w, u)); origin.append("accept" if di < n_regular else "accept-optional")
         for k in range(len(u)):
             items.append((w, u[:k])); origin.append("prefix")
         for sfx in (_json.SUFFIXES if ctx.thorough else rng.sample(_json.SUFFIXES, 8)) + _json.CONTROL_SUFFIXES:
             items.append((w, u + [sfx])); origin.append("suffix")
             items.append((w, u + [32, sfx])); origin.append("suffix")
-        closers = [i for i, x in enumerate(u) if x in (93, 125)]
+            # leading whitespace must not buy tolerance for trailing garbage
+            lead = [rng.choice([32, 10, 9, 13]) for _ in range(rng.randrange(1, 6))]
+            items.append((w, lead + u + [sfx])); origin.append("suffix")
+            items.append((w, lead + u + [sfx] * rng.randrange(1, len(lead) + 1))); origin.append("suffix")
+        # (the constructed lone-surrogate documents have no agreed reading once a bracket inside the string moves)
+        closers = [i for i, x in enumerate(u) if x in (93, 125)] if di < n_regular else []
         for i in closers if ctx.thorough else closers[-6:]:
             # only brackets outside strings: rendering puts every ] } of a string body inside quotes; filter by re-checking acceptance
             v = list(u); v[i] = 93 if u[i] == 125 else 125
@@ -52,6 +80,8 @@ def run(ctx):
     import json as pyjson
     for l, a, o, (w, u) in zip(lines, impl, origin, items):
         if a.startswith("FAULT"):
+            continue
+        if o == "accept-optional":
             continue
         if o == "accept":
             if a == "U":
